@@ -51,6 +51,7 @@ def wrapper_lemmas(chk, tier):
 def check(tier):
     chk = runner.Check("C15", tier)
     dispatch_check.run(chk, "C15", tier)
+    classlemmas.INCLUDE_PACKAGE_ENVELOPES = True  # ResponseError / ResponseErrorMessage take undeclared members like any message
     sat, cases = classlemmas.run_queries(chk, ["extra"])
     for c, k, m in sat:
         classlemmas.replay_sat(chk, c, k, m)
@@ -58,7 +59,7 @@ def check(tier):
     chk.ev.coverage["stubs"] = ["converter.structure(obj, attrs class) and _structure_func.dispatch(attrs class) return a Dispatched(cls, obj) token (the cut; recursive descent is replaced by the class lemma of the chosen class)", "format(symbolic, '') -> '<sym>'", "cattrs code generation under NoTracing", "handler lookup memoised outside tracing (lru_cache bypass)"]
     chk.ev.coverage["outside_bounds"] = ["values nested deeper than the bound below a union as seen by a hook (covered by the induction of DESIGN 3.5, not by a lemma)", "arrays longer than the bound at hook-inspected positions", "strings longer than the bound"]
     chk.ev.assumptions += ["cattrs generic machinery (_structure_list/_dict/_tuple/_optional, _unstructure_union, primitive coercion) behaves as documented (exercised concretely by the root round trips)", "CrossHair 0.0.110 and z3 5.1 are sound"]
-    chk.ev.coverage["rule"] = "dispatch lemmas re-run with one undeclared key per object node: its presence is a symbolic bool, its NAME a symbolic string (|name| <= 40, longer than any property name of the metamodel) constrained only to differ from every name some alternative at the position declares, its payload one of 6 JSON kinds by symbolic index; assertion: same decision with and without; class level: z3 query Q-extra per class"
+    chk.ev.coverage["rule"] = "dispatch lemmas re-run with one undeclared key per object node: its presence is a symbolic bool, its NAME a symbolic string (|name| <= 40, longer than any property name of the metamodel) constrained only to differ from every name some alternative at the position declares, its payload one of 8 JSON values (all kinds, two of them 150 levels deep) by symbolic index; assertion: same decision with and without; class level: z3 query Q-extra per class"
     chk.ev.coverage["outside_bounds"].append("undeclared names longer than 8 characters; names that another alternative at the same position declares are not 'unknown' there")
     chk.ev.coverage["explanation"] = (
         "Hooks: CrossHair runs every real union handler twice on the same lazily symbolic value, once with an undeclared property present on any subset of the object nodes and once without, and asserts the same dispatch decision; "
